@@ -24,9 +24,14 @@ func (a *advSim) setByz(ids ...spectypes.OperatorID) {
 }
 
 func newDirected(env *Env, h specqbft.Height, byz []spectypes.OperatorID, compact bool) *advSim {
+	return newDirectedCfg(env, h, byz, compact, false)
+}
+
+// newDirectedCfg: prod = the correct operators' controllers come from the production wiring (prodcfg.go)
+func newDirectedCfg(env *Env, h specqbft.Height, byz []spectypes.OperatorID, compact, prod bool) *advSim {
 	r := hx.NewRng(12345)
 	a := &advSim{r: r, byz: map[spectypes.OperatorID]bool{}, pending: map[spectypes.OperatorID][]int{}, done: map[spectypes.OperatorID][]int{},
-		reported: map[spectypes.OperatorID][]byte{}, decVal: map[spectypes.OperatorID][]byte{}, compact: compact}
+		reported: map[spectypes.OperatorID][]byte{}, decVal: map[spectypes.OperatorID][]byte{}, compact: compact, prod: prod}
 	a.Sim = &Sim{env: env, h: h}
 	a.setByz(byz...)
 	a.addNodes(env, h, compact)
@@ -459,10 +464,10 @@ func (a *advSim) roundOnePartial(A []byte, byz spectypes.OperatorID, all, prepar
 // 1 decides; 3 (locked on (1,A)) and 4 (unprepared) time out and hold each other's genuine round-changes; the leader proposes B
 // justified by 4's round-change, its own, and a FORGED unprepared round-change in the name of 3. Unchanged tree: refused
 // (…/rcNotValid/sigInvalid).
-func scenarioForgedKnownSigner() []caseOut {
+func scenarioForgedKnownSigner(prod bool) []caseOut {
 	env := getEnv(4)
 	h := specqbft.Height(0)
-	a := newDirected(env, h, []spectypes.OperatorID{2}, false)
+	a := newDirectedCfg(env, h, []spectypes.OperatorID{2}, false, prod)
 	A, B := valueBytes(1), valueBytes(2)
 	a.startAll([][]byte{A, A, A, A})
 	n1, n3, n4 := a.node(1), a.node(3), a.node(4)
@@ -477,7 +482,7 @@ func scenarioForgedKnownSigner() []caseOut {
 	a.sendDirect(enc(a.f.proposal(2, 2, B, rcs, nil)), victims)
 	a.pushDecision(2, B, victims)
 	a.exchange(victims, 2, sha256.Sum256(B))
-	return a.outs([]string{"case/directed", "directed/forged-round-change-of-known-signer"})
+	return a.outs([]string{"case/directed", fmt.Sprintf("config/production-%v", prod), "directed/forged-round-change-of-known-signer"})
 }
 
 // scenarioCommitBroadcastFault (seeded change C01-m3: the lock is recorded only after the commit broadcast returned without
@@ -568,9 +573,9 @@ func scenarioLaggardAfterOwnTimeout() []caseOut {
 // scenarioFutureRoundProposalToLaggard (C07-m3 = C02-m2), n=4, height 0 (leader of round 2: operator 2), operator 4 Byzantine:
 // round-1 traffic is lost; operators 1 and 2 time out, operator 3 does not. With the Byzantine round-change the leader of round
 // 2 holds a quorum and proposes; the proposal reaches operator 3 (still in round 1) before any round-change does.
-func scenarioFutureRoundProposalToLaggard() []caseOut {
+func scenarioFutureRoundProposalToLaggard(prod bool) []caseOut {
 	env := getEnv(4)
-	a := newDirected(env, 0, []spectypes.OperatorID{4}, false)
+	a := newDirectedCfg(env, 0, []spectypes.OperatorID{4}, false, prod)
 	V := valueBytes(1)
 	a.startAll([][]byte{V, V, V, V})
 	n1, n2, n3 := a.node(1), a.node(2), a.node(3)
